@@ -77,6 +77,8 @@ fn send_new_compilation_request(
     // here -- after the retrigger decision above and before the request becomes visible to the
     // worker -- because a store made after `send` races with the worker resetting the flag at
     // the end of that very compilation, leaving it `true` with nothing running.
+    #[cfg(fuellabs_sway_verif)]
+    sway_utils::verif::step("H.setCompiling", "");
     state.is_compiling.store(true, Ordering::SeqCst);
 
     #[cfg(fuellabs_sway_verif)]
